@@ -49,9 +49,10 @@ func main() {
 	kinds := lg.Kinds()
 	rot := int(p.Seed % 1000)
 
-	nTable, nSplit, nDown := p.N(250, 40000), p.N(250, 40000), p.N(512, 20480)
+	// thorough is sized for ~10 CPU-minutes in the plain build so that the tier stays inside its budget on a busy machine
+	nTable, nSplit, nDown := p.N(250, 7000), p.N(250, 7000), p.N(512, 5120)
 	if p.Flavour != "" {
-		nTable, nSplit, nDown = p.N(70, 5000), p.N(70, 5000), p.N(128, 2560)
+		nTable, nSplit, nDown = p.N(70, 1200), p.N(70, 1200), p.N(128, 1024)
 	}
 	var cases []func(c *lg.Case)
 	for i := 0; i < nTable; i++ {
